@@ -185,7 +185,8 @@ def pr_s(s, st):
         ms = macro_names(st["tt"][s[1]])
         return "{% from '" + tname(s[1], ae) + "' import " + ", ".join(f"n{m}" for m in ms) + " with context %}"
     if k == "K":
-        return "{% block n" + str(s[1]) + " %}" + pr_body(s[2], st) + "{% endblock %}"
+        # every other block is `scoped` (rendered with a derived context; same meaning in the model)
+        return "{% block n" + str(s[1]) + (" scoped" if s[1] % 2 else "") + " %}" + pr_body(s[2], st) + "{% endblock %}"
     if k == "O":
         return "{{ " + pr_e(s[1]) + " }}"
     if k == "I":
@@ -322,8 +323,11 @@ class SGen(L.LGen):
         tid = self.next_tid
         self.next_tid += 1
         self.tpl_ae[tid] = self.ae_choice()
-        g = L.LGen(self.r, neutral=self.neutral, safe_ok=self.safe_ok, text=self.text_pools, ae=self.ae, depth=1,
-                   marker=self.marker)
+        # a library's macros run with the library MODULE's context; an autoescape block inside such a macro would
+        # change that shared context's flag for re-entrant calls through caller() (the model uses the library's
+        # static setting): libraries contain no autoescape blocks
+        g = L.LGen(self.r, neutral=self.neutral, safe_ok=self.safe_ok, text=self.text_pools,
+                   ae="" if macros_only else self.ae, depth=1, marker=self.marker)
         g.fresh = 1000 + 100 * tid
         if macros_only:
             body = []
